@@ -345,5 +345,16 @@ def run(ck, prog, ctx):
 
     # ---- constructors: a field named like a parameter is initialised from that parameter, not from a sibling of the same type
     ck.rule("CTOR", "in a struct literal, the field `f` of a function with a parameter `f` derives from that parameter (DESIGN 3.9)")
+    ck.rule("GUARD", "numeric conversion helpers are exact or fail (DESIGN 3.5)")
+    from props.shared import check_exact_conversion
+    check_exact_conversion(ck, "GUARD", prog, "similarity::usize_to_f32", "the matrix dimensions")
     from engines import check_ctors
     check_ctors(ck, "CTOR", prog, r"^src/(matrix|similarity)\.rs$", floor=8)
+    # container methods of the wrapper types answer with the same-named method of one inner collection
+    ck.rule("WRAPPER", "len / is_empty / contains / get / iter / push ... of a wrapper type delegate to the same-named method of ONE inner collection, un-negated (DESIGN 3.9)")
+    from engines import check_wrappers
+    check_wrappers(ck, "WRAPPER", prog, r"^src/matrix\.rs$", floor=2)
+    # iterators that turn one inner item into one item of their own never answer None while the inner iterator still has items
+    ck.rule("MAPITER", "a hand-written mapping iterator returns None only on the inner iterator's exhaustion (no early end on a failed lookup)")
+    from engines import check_mapping_iterators
+    check_mapping_iterators(ck, "MAPITER", prog, r"^src/matrix\.rs$", floor=2)
